@@ -353,11 +353,13 @@ def tobv(t, W):
 
 
 class SInt:
-    __slots__ = ('t', 'bv')
+    __slots__ = ('t', 'bv', 'part', 'bytes_be')
 
     def __init__(self, t, bv=None):
         self.t = t
         self.bv = bv        # when set: t == bv2int(bv) (unsigned), operators stay in the BV theory
+        self.bytes_be = None   # when set: the byte values (most significant first) this value was composed from by struct.unpack
+        self.part = None    # when set to (u, k, m): t == (u div 256^k) mod 256^m  (byte-slice provenance, see struct model)
 
     def __repr__(self):
         return 'SInt(%s)' % self.t
@@ -692,6 +694,13 @@ def seq_concat(a, b):
         if isinstance(k, int) and isinstance(an, int):
             return a.at(k) if k < an else b.at(k - an)
         kk = zint(k)
+        # resolve the side when the quantifier-free path condition decides it (keeps element provenance and small terms)
+        c = ssimplify(kk < an)
+        st = cur()
+        if z3.is_true(c) or (st is not None and not z3.is_false(c) and st.quick(c)):
+            return a.at(mk(kk))
+        if z3.is_false(c) or (st is not None and st.quick(z3.Not(c))):
+            return b.at(mk(kk - an))
         if elem == 'bool':
             return mk(z3.If(kk < an, a.zat(kk) if a.items is None else zbool(a.at(mk(kk))), zbool(b.at(mk(kk - an)))))
         return mk(z3.If(kk < an, zint(a.at(mk(kk))) if not (isinstance(an, int) and an == 0) else z3.IntVal(0), zint(b.at(mk(kk - an)))))
